@@ -310,6 +310,19 @@ def judge_surface(op_line, out_line):
                     return txt
             if d["reader_bad"] != "0" or d["monotone_bad"] != "0":
                 return "readers saw %s foreign/inconsistent states and %s decreasing counts" % (d["reader_bad"], d["monotone_bad"])
+        elif op == "goalctl":
+            if d.get("hung_in_cycle", "-1") != "-1":
+                return ("two threads called stopSampling() at the same moment (cycle %s): %s of 2 calls returned within 4 s "
+                        "(both join and delete the same std::thread)" % (d["hung_in_cycle"], d["finished_callers"]))
+            if d["exceptions"] != "0":
+                return "stopSampling() threw (%s times)" % d["exceptions"]
+            if d["still_sampling"] != "0" or d["called_after_stop"] != "0":
+                return ("after stopSampling() returned, isSampling() was still true in %s cycles and the sampler was called again in %s"
+                        % (d["still_sampling"], d["called_after_stop"]))
+            if d["idle_cycles"] != "0":
+                return "startSampling() after a stopSampling() did not sample in %s of %s cycles" % (d["idle_cycles"], d["cycles"])
+            if int(d["states"]) > 7:
+                return "the goal holds %s states, the sampler only ever produces 7 distinct ones" % d["states"]
         elif op == "logpark":
             if d["overlap"] != "0":
                 return ("OutputHandler::log() was entered by a second thread while another one was inside it (%s times in %s rounds): "
